@@ -566,9 +566,9 @@ theorem locate_cons_lt (x a : Int) (p : List Int) (h : x < a) :
     have hb : (x == a) = false := by simp [hne']
     rw [List.idxOf_cons, hb]; rfl
   · have : ¬ (x :: p).contains a = true := by simp [hne]; simpa using hc
-    simp only [this, hc, if_false]
+    simp only [this, hc]
     have hb : bisectLeft (x :: p) a = bisectLeft p a + 1 := by
-      simp [bisectLeft, List.takeWhile_cons, h]
+      simp [bisectLeft, h]
     rw [hb]
     by_cases h0 : bisectLeft p a = 0
     · simp [h0]
@@ -579,12 +579,12 @@ theorem locate_none_of (p : List Int) (a : Int) (h : ∀ y ∈ p, a < y) : locat
   have hc : ¬ p.contains a = true := by
     simp only [List.contains_iff_mem]
     intro hm; have := h a hm; omega
-  simp only [hc, if_false]
+  simp only [hc]
   cases p with
   | nil => simp [bisectLeft]
   | cons y p =>
     have : ¬ y < a := by have := h y List.mem_cons_self; omega
-    simp [bisectLeft, List.takeWhile_cons, this]
+    simp [bisectLeft, this]
 
 
 
@@ -994,6 +994,1138 @@ theorem addtomapL_spec (m : List Mo) (z : Mo) (wf : ZoneWF m) (hz : 0 < z.len) :
               rw [absL_none_of mid q (fun p hp => Or.inr (by
                 have := hAyp p (by simp [hp]) y List.mem_cons_self; omega))]
               simp
+
+
+
+/-! ## read -/
+
+/-- what a byte store returns for `n` bytes from `a`. -/
+def window (f : ByteMap) (a : Int) (n : Nat) : List (Option ByteDesc) :=
+  (List.range n).map (fun (k : Nat) => f (a + (k : Int)))
+
+theorem window_length (f : ByteMap) (a : Int) (n : Nat) : (window f a n).length = n := by simp [window]
+
+theorem window_getElem? (f : ByteMap) (a : Int) (n k : Nat) :
+    (window f a n)[k]? = if k < n then some (f (a + (k : Int))) else none := by
+  unfold window
+  rw [List.getElem?_map]
+  by_cases h : k < n
+  · simp [h]
+  · simp [h]
+
+theorem window_add (f : ByteMap) (a : Int) (n1 n2 : Nat) :
+    window f a (n1 + n2) = window f a n1 ++ window f (a + (n1 : Int)) n2 := by
+  apply List.ext_getElem?
+  intro k
+  rw [List.getElem?_append, window_length, window_getElem?, window_getElem?, window_getElem?]
+  by_cases h : k < n1
+  · simp [h]; omega
+  · simp only [h, if_false]
+    by_cases h2 : k < n1 + n2
+    · have : k - n1 < n2 := by omega
+      simp only [h2, this, if_true]
+      congr 2; omega
+    · have : ¬ k - n1 < n2 := by omega
+      simp [h2, this]
+
+theorem window_congr (f g : ByteMap) (a : Int) (n : Nat) (h : ∀ k : Nat, k < n → f (a + (k : Int)) = g (a + (k : Int))) :
+    window f a n = window g a n := by
+  apply List.ext_getElem?
+  intro k
+  rw [window_getElem?, window_getElem?]
+  by_cases hk : k < n
+  · simp [hk, h k hk]
+  · simp [hk]
+
+theorem window_none (f : ByteMap) (a : Int) (n : Nat) (h : ∀ k : Nat, k < n → f (a + (k : Int)) = none) :
+    window f a n = List.replicate n none := by
+  apply List.ext_getElem?
+  intro k
+  rw [window_getElem?, List.getElem?_replicate]
+  by_cases hk : k < n
+  · simp [hk, h k hk]
+  · simp [hk]
+
+theorem window_zero (f : ByteMap) (a : Int) : window f a 0 = [] := by simp [window]
+
+/-- the bytes of one object, seen through a window that lies inside it. -/
+theorem window_mo (x : Mo) (a : Int) (n : Nat) (h1 : x.vaddr ≤ a) (h2 : a + (n : Int) ≤ x.fin) :
+    window (absMo x) a n = ((x.data.memBytes.drop (a - x.vaddr).toNat).take n).map some := by
+  apply List.ext_getElem?
+  intro k
+  rw [window_getElem?, List.getElem?_map, List.getElem?_take, List.getElem?_drop]
+  by_cases hk : k < n
+  · simp only [hk, if_true]
+    rw [absMo_eq x _ (by omega)]
+    have hlen := Mo.len_eq x
+    have hf := Mo.fin_eq x
+    have hi : (a + (k : Int) - x.vaddr).toNat < x.data.memBytes.length := by omega
+    have e : (a - x.vaddr).toNat + k = (a + (k : Int) - x.vaddr).toNat := by omega
+    rw [e, (List.getElem?_eq_some_getElem_iff hi).mpr trivial]; rfl
+  · simp [hk]
+
+theorem DD.getpart_spec (d : DD) (o l : Nat) (ho : o < d.len) :
+    ∃ v, d.getpart o l = (some v, l - v.len) ∧ v.memBytes d.endian = (d.memBytes.drop o).take l := by
+  cases h : (d.getpart o l).1 with
+  | none => have := DD.getpart_none d o l h; omega
+  | some v =>
+    have hm := DD.getpart_fst d o l v h
+    refine ⟨v, ?_, hm⟩
+    have hvl : v.len = min l (d.len - o) := by
+      rw [← Val.memBytes_length v d.endian, hm, List.length_take, List.length_drop, DD.memBytes_length]
+    unfold DD.getpart at h ⊢
+    by_cases hc : o = 0 ∧ l = d.len
+    · simp only [hc, and_self, if_true] at h ⊢
+      cases h
+      simp [DD.len]
+    · simp only [hc, if_false] at h ⊢
+      cases hd : d.val with
+      | raw bs =>
+        simp only [hd] at h ⊢
+        cases h
+        simp [Val.len]
+      | ex e =>
+        simp only [hd] at h ⊢
+        have : ¬ o ≥ d.len := by omega
+        simp only [this, if_false] at h ⊢
+        cases h
+        simp [Val.len]
+
+
+theorem flattenItems_cons (it : Item) (r : List Item) : flattenItems (it :: r) = it.flatten ++ flattenItems r := by
+  simp [flattenItems]
+
+theorem flattenItems_nil : flattenItems [] = [] := rfl
+
+theorem window_cons_skip (x : Mo) (rest : List Mo) (a : Int) (n : Nat) (h : x.fin ≤ a) :
+    window (absL (x :: rest)) a n = window (absL rest) a n := by
+  apply window_congr
+  intro k _
+  rw [absL_cons, absMo_none_ge x _ (by omega)]; rfl
+
+theorem readLoop_spec (l : List (Mo × Int)) (a : Int) (ll : Nat)
+    (hc : ∀ p ∈ l, p.2 = p.1.vaddr) (wf : ZoneWF (l.map Prod.fst)) :
+    flattenItems (readLoop l a ll) = window (absL (l.map Prod.fst)) a ll := by
+  fun_induction readLoop l a ll with
+  | case1 a ll h =>
+    simp only [flattenItems_cons, flattenItems_nil, Item.flatten, List.append_nil]
+    exact (window_none _ _ _ (fun k _ => rfl)).symm
+  | case2 a ll h =>
+    have : ll = 0 := by omega
+    subst this; simp [flattenItems_nil, window_zero]
+  | case3 x vi rest a =>
+    simp [flattenItems_nil, window_zero]
+  | case4 x vi rest a ll hll d ll' hr ih =>
+    have hvi : vi = x.vaddr := hc (x, vi) List.mem_cons_self
+    simp only [List.map_cons] at wf ⊢
+    obtain ⟨hx, hxr, wfr⟩ := (zoneWF_cons x _).mp wf
+    have ih := ih (fun p hp => hc p (List.mem_cons_of_mem _ hp)) wfr
+    rw [flattenItems_cons, ih]
+    -- the read hit x
+    unfold Mo.read at hr
+    by_cases hcx : x.contains a = true
+    · simp only [hcx, if_true] at hr
+      have hrange := (contains_iff x a).mp hcx
+      have hf := Mo.fin_eq x
+      have ho : (a - x.vaddr).toNat < x.data.len := by unfold Mo.len at hf; omega
+      obtain ⟨v, hg, hm⟩ := DD.getpart_spec x.data (a - x.vaddr).toNat ll ho
+      rw [hg] at hr
+      cases hr
+      have hvl : d.len = min ll (x.data.len - (a - x.vaddr).toNat) := by
+        rw [← Val.memBytes_length d x.data.endian, hm, List.length_take, List.length_drop, DD.memBytes_length]
+      have hsplit : ll = d.len + (ll - d.len) := by omega
+      conv => rhs; rw [hsplit, window_add]
+      congr 1
+      · simp only [Item.flatten]
+        have hw := window_mo x a d.len hrange.1 (by unfold Mo.len at hf; omega)
+        have : window (absL (x :: List.map Prod.fst rest)) a d.len = window (absMo x) a d.len := by
+          apply window_congr
+          intro k hk
+          rw [absL_cons]
+          have := absMo_isSome x (a + k) (by omega) (by unfold Mo.len at hf; omega)
+          rw [Option.or_of_isSome this]
+        rw [this, hw, hm]
+        congr 1
+        have hL : (List.drop (a - x.vaddr).toNat x.data.memBytes).length = x.data.len - (a - x.vaddr).toNat := by
+          rw [List.length_drop, DD.memBytes_length]
+        apply List.ext_getElem?
+        intro k
+        rw [List.getElem?_take, List.getElem?_take]
+        by_cases hk : k < d.len
+        · have : k < ll := by omega
+          simp [hk, this]
+        · simp only [hk, if_false]
+          by_cases hk2 : k < ll
+          · simp only [hk2, if_true]
+            rw [List.getElem?_eq_none_iff]; omega
+          · simp [hk2]
+      · by_cases hz : ll - d.len = 0
+        · rw [hz, window_zero, window_zero]
+        · rw [window_cons_skip]
+          unfold Mo.len at hf; omega
+    · simp [hcx] at hr
+  | case5 x vi rest a ll hll _ hr hlt l ih =>
+    have hvi : vi = x.vaddr := hc (x, vi) List.mem_cons_self
+    have ih := ih hc wf
+    rw [flattenItems_cons, ih]
+    simp only [List.map_cons] at wf ⊢
+    obtain ⟨hx, hxr, wfr⟩ := (zoneWF_cons x _).mp wf
+    have hl : l = (min (a + ll) vi - a).toNat := rfl
+    have hsplit : ll = l + (ll - l) := by omega
+    conv => rhs; rw [hsplit, window_add]
+    congr 1
+    simp only [Item.flatten]
+    symm
+    apply window_none
+    intro k hk
+    apply absL_none_of
+    intro o ho
+    left
+    rcases List.mem_cons.mp ho with ho | ho
+    · subst ho; omega
+    · have := hxr o ho; have := Mo.lt_fin x hx; omega
+  | case6 x vi rest a ll hll _ hr hge ih =>
+    have hvi : vi = x.vaddr := hc (x, vi) List.mem_cons_self
+    simp only [List.map_cons] at wf ⊢
+    obtain ⟨hx, hxr, wfr⟩ := (zoneWF_cons x _).mp wf
+    have ih := ih (fun p hp => hc p (List.mem_cons_of_mem _ hp)) wfr
+    rw [ih]
+    symm
+    apply window_cons_skip
+    -- the read missed x and a ≥ x.vaddr, so a ≥ x.fin
+    unfold Mo.read at hr
+    by_cases hcx : x.contains a = true
+    · simp only [hcx, if_true] at hr
+      have hrange := (contains_iff x a).mp hcx
+      have hf := Mo.fin_eq x
+      have ho : (a - x.vaddr).toNat < x.data.len := by unfold Mo.len at hf; omega
+      obtain ⟨v, hg, hm⟩ := DD.getpart_spec x.data (a - x.vaddr).toNat ll ho
+      rw [hg] at hr
+      cases hr
+    · rw [contains_iff] at hcx; omega
+
+
+def zipS (m : List Mo) : List (Mo × Int) := m.map (fun x => (x, x.vaddr))
+
+theorem zip_starts (m : List Mo) : m.zip (starts m) = zipS m := by
+  induction m with
+  | nil => rfl
+  | cons x m ih => simp only [starts, List.map_cons, List.zip_cons_cons, zipS] at ih ⊢; rw [ih]
+
+theorem zipS_fst (m : List Mo) : (zipS m).map Prod.fst = m := by
+  simp [zipS, Function.comp_def]
+
+theorem zipS_snd (m : List Mo) : ∀ p ∈ zipS m, p.2 = p.1.vaddr := by
+  intro p hp
+  obtain ⟨x, _, rfl⟩ := List.mem_map.mp hp
+  rfl
+
+theorem readLoop_zipS (m : List Mo) (a : Int) (n : Nat) (wf : ZoneWF m) :
+    flattenItems (readLoop (zipS m) a n) = window (absL m) a n := by
+  have := readLoop_spec (zipS m) a n (zipS_snd m) (by rw [zipS_fst]; exact wf)
+  rw [zipS_fst] at this; exact this
+
+theorem readL_spec (m : List Mo) (a : Int) (n : Nat) (wf : ZoneWF m) :
+    flattenItems (readL (starts m) m a n) = window (absL m) a n := by
+  unfold readL
+  cases hl : locate (starts m) a with
+  | none =>
+    have hall := locateM_none m a wf hl
+    cases m with
+    | nil =>
+      simp only [flattenItems_cons, flattenItems_nil, Item.flatten, List.append_nil]
+      exact (window_none _ _ _ (fun k _ => rfl)).symm
+    | cons x0 rest =>
+      simp only
+      have h0 := hall x0 List.mem_cons_self
+      obtain ⟨hx, hxr, wfr⟩ := (zoneWF_cons x0 rest).mp wf
+      have hnone : ∀ k : Nat, a + (k : Int) < x0.vaddr → absL (x0 :: rest) (a + (k : Int)) = none := by
+        intro k hk
+        apply absL_none_of
+        intro o ho
+        left
+        rcases List.mem_cons.mp ho with ho | ho
+        · subst ho; exact hk
+        · have := hxr o ho; have := Mo.lt_fin x0 hx; omega
+      by_cases hv : x0.vaddr < a + (n : Int)
+      · simp only [hv, if_true]
+        rw [flattenItems_cons, zip_starts, readLoop_zipS _ _ _ wf]
+        have hsplit : n = (x0.vaddr - a).toNat + (a + (n : Int) - x0.vaddr).toNat := by omega
+        conv => rhs; rw [hsplit, window_add]
+        congr 1
+        · simp only [Item.flatten]
+          exact (window_none _ _ _ (fun k hk => hnone k (by omega))).symm
+        · congr 1; omega
+      · simp only [hv, if_false, flattenItems_cons, flattenItems_nil, Item.flatten, List.append_nil]
+        exact (window_none _ _ _ (fun k hk => hnone k (by omega))).symm
+  | some i =>
+    obtain ⟨pre, x, post, hm, hlen, hxa, hpost⟩ := locateM_some m a i wf hl
+    subst hm
+    subst hlen
+    simp only
+    rw [zip_starts]
+    have : List.drop pre.length (zipS (pre ++ x :: post)) = zipS (x :: post) := by
+      unfold zipS; rw [← List.map_drop, drop_len]
+    rw [this]
+    obtain ⟨wfp, wfxp, hpx⟩ := (zoneWF_append pre (x :: post)).mp wf
+    rw [readLoop_zipS _ _ _ wfxp]
+    apply window_congr
+    intro k _
+    rw [absL_append, absL_none_of pre _ (fun p hp => Or.inr (by have := hpx p hp x List.mem_cons_self; omega))]
+    rfl
+
+
+
+/-! ## restruct -/
+
+theorem merge_raw_abs (cur z : Mo) (a b : List Nat) (ha : cur.data.val = .raw a) (hb : z.data.val = .raw b)
+    (hz : z.vaddr = cur.fin) (q : Int) :
+    absMo { cur with data := { cur.data with val := .raw (a ++ b) } } q = (absMo cur q).or (absMo z q) := by
+  have hM : cur.data.memBytes = a.map ByteDesc.raw := by simp [DD.memBytes, ha, Val.memBytes]
+  have hN : z.data.memBytes = b.map ByteDesc.raw := by simp [DD.memBytes, hb, Val.memBytes]
+  have hlen : cur.len = a.length := by rw [Mo.len_eq, hM, List.length_map]
+  have hf := Mo.fin_eq cur
+  by_cases hq : cur.vaddr ≤ q
+  · have e1 : absMo { cur with data := { cur.data with val := .raw (a ++ b) } } q =
+        (a.map ByteDesc.raw ++ b.map ByteDesc.raw)[(q - cur.vaddr).toNat]? := by
+      unfold absMo; simp [hq, DD.memBytes, Val.memBytes]
+    rw [e1, absMo_eq cur q hq, hM]
+    by_cases hi : (q - cur.vaddr).toNat < (a.map ByteDesc.raw).length
+    · rw [List.getElem?_append_left hi, (List.getElem?_eq_some_getElem_iff hi).mpr trivial]; rfl
+    · have hn : (List.map ByteDesc.raw a)[(q - cur.vaddr).toNat]? = none :=
+        List.getElem?_eq_none_iff.mpr (by omega)
+      rw [List.getElem?_append_right (by omega), hn, Option.none_or]
+      simp only [List.length_map] at hi ⊢
+      rw [absMo_eq z q (by omega), hN]
+      congr 1
+      omega
+  · rw [absMo_none_lt _ q (by simp only; omega), absMo_none_lt cur q (by omega), absMo_none_lt z q (by omega)]; rfl
+
+theorem restructGo_abs (cur : Mo) (rest : List Mo) (q : Int) :
+    absL (restructGo cur rest) q = absL (cur :: rest) q := by
+  induction rest generalizing cur with
+  | nil => rfl
+  | cons z rest ih =>
+    unfold restructGo
+    split
+    · rename_i a b ha hb
+      by_cases hz : z.vaddr = cur.fin
+      · simp only [hz, if_true]
+        rw [ih, absL_cons, merge_raw_abs cur z a b ha hb hz q, absL_cons, absL_cons, Option.or_assoc]
+      · simp only [hz, if_false]
+        rw [absL_cons, ih, absL_cons, absL_cons, absL_cons]
+    · rw [absL_cons, ih, absL_cons, absL_cons, absL_cons]
+
+theorem restructGo_vaddr (cur : Mo) (rest : List Mo) :
+    ∀ w ∈ restructGo cur rest, ∃ o ∈ cur :: rest, w.vaddr = o.vaddr := by
+  induction rest generalizing cur with
+  | nil => intro w hw; simp [restructGo] at hw; exact ⟨cur, List.mem_cons_self, by rw [hw]⟩
+  | cons z rest ih =>
+    intro w hw
+    unfold restructGo at hw
+    split at hw
+    · rename_i a b ha hb
+      by_cases hz : z.vaddr = cur.fin
+      · simp only [hz, if_true] at hw
+        obtain ⟨o, ho, e⟩ := ih _ w hw
+        rcases List.mem_cons.mp ho with ho | ho
+        · subst ho; exact ⟨cur, List.mem_cons_self, e⟩
+        · exact ⟨o, List.mem_cons_of_mem _ (List.mem_cons_of_mem _ ho), e⟩
+      · simp only [hz, if_false] at hw
+        rcases List.mem_cons.mp hw with hw | hw
+        · exact ⟨cur, List.mem_cons_self, by rw [hw]⟩
+        · obtain ⟨o, ho, e⟩ := ih _ w hw
+          exact ⟨o, List.mem_cons_of_mem _ ho, e⟩
+    · rcases List.mem_cons.mp hw with hw | hw
+      · exact ⟨cur, List.mem_cons_self, by rw [hw]⟩
+      · obtain ⟨o, ho, e⟩ := ih _ w hw
+        exact ⟨o, List.mem_cons_of_mem _ ho, e⟩
+
+theorem restructGo_wf (cur : Mo) (rest : List Mo) (wf : ZoneWF (cur :: rest)) : ZoneWF (restructGo cur rest) := by
+  induction rest generalizing cur with
+  | nil => exact wf
+  | cons z rest ih =>
+    obtain ⟨hc, hcr, wfr⟩ := (zoneWF_cons cur _).mp wf
+    obtain ⟨hzl, hzr, wfr'⟩ := (zoneWF_cons z _).mp wfr
+    have keep : ZoneWF (cur :: restructGo z rest) := by
+      rw [zoneWF_cons]
+      refine ⟨hc, ?_, ih z wfr⟩
+      intro w hw
+      obtain ⟨o, ho, e⟩ := restructGo_vaddr z rest w hw
+      rw [e]; exact hcr o ho
+    unfold restructGo
+    split
+    · rename_i a b ha hb
+      by_cases hz : z.vaddr = cur.fin
+      · simp only [hz, if_true]
+        apply ih
+        rw [zoneWF_cons]
+        have hla : cur.len = a.length := by simp [Mo.len, DD.len, ha, Val.len]
+        have hlb : z.len = b.length := by simp [Mo.len, DD.len, hb, Val.len]
+        have hf1 := Mo.fin_eq cur
+        have hf2 := Mo.fin_eq z
+        refine ⟨?_, ?_, wfr'⟩
+        · simp only [Mo.len, DD.len, Val.len, List.length_append]; omega
+        · intro y hy
+          have := hzr y hy
+          simp only [Mo.fin, DD.len, Val.len, List.length_append]
+          omega
+      · simp only [hz, if_false]; exact keep
+    · exact keep
+
+theorem restructL_abs (m : List Mo) (q : Int) : absL (restructL m) q = absL m q := by
+  cases m with
+  | nil => rfl
+  | cons x rest => exact restructGo_abs x rest q
+
+theorem restructL_wf (m : List Mo) (wf : ZoneWF m) : ZoneWF (restructL m) := by
+  cases m with
+  | nil => exact wf
+  | cons x rest => exact restructGo_wf x rest wf
+
+/-! ## shift / copy -/
+
+def shiftL (m : List Mo) (off : Int) : List Mo := m.map (fun o => { o with vaddr := o.vaddr + off })
+
+theorem shiftL_abs (m : List Mo) (off q : Int) : absL (shiftL m off) q = absL m (q - off) := by
+  induction m with
+  | nil => rfl
+  | cons x m ih =>
+    simp only [shiftL, List.map_cons] at ih ⊢
+    rw [absL_cons, absL_cons, ih]
+    congr 1
+    unfold absMo
+    simp only
+    by_cases h : x.vaddr + off ≤ q
+    · have : x.vaddr ≤ q - off := by omega
+      simp only [h, this, if_true]; congr 1; omega
+    · have : ¬ x.vaddr ≤ q - off := by omega
+      simp [h, this]
+
+theorem shiftL_wf (m : List Mo) (off : Int) (wf : ZoneWF m) : ZoneWF (shiftL m off) := by
+  induction m with
+  | nil => exact wf
+  | cons x m ih =>
+    obtain ⟨hx, hxm, wfm⟩ := (zoneWF_cons x m).mp wf
+    simp only [shiftL, List.map_cons] at ih ⊢
+    rw [zoneWF_cons]
+    refine ⟨hx, ?_, ih wfm⟩
+    intro y hy
+    obtain ⟨o, ho, rfl⟩ := List.mem_map.mp hy
+    have := hxm o ho
+    simp only [Mo.fin] at this ⊢; omega
+
+theorem copy_absMo (o : Mo) (q : Int) : absMo o.copy q = absMo o q := by
+  unfold absMo Mo.copy
+  rw [Mo.new_vaddr, Mo.new_memBytes]; rfl
+
+theorem copy_len (o : Mo) : o.copy.len = o.len := by unfold Mo.copy; rw [Mo.new_len]; rfl
+theorem copy_vaddr (o : Mo) : o.copy.vaddr = o.vaddr := rfl
+theorem copy_fin (o : Mo) : o.copy.fin = o.fin := by rw [Mo.fin_eq, Mo.fin_eq, copy_len, copy_vaddr]
+
+theorem copyL_abs (m : List Mo) (q : Int) : absL (m.map Mo.copy) q = absL m q := by
+  induction m with
+  | nil => rfl
+  | cons x m ih => rw [List.map_cons, absL_cons, absL_cons, ih, copy_absMo]
+
+theorem copyL_wf (m : List Mo) (wf : ZoneWF m) : ZoneWF (m.map Mo.copy) := by
+  induction m with
+  | nil => exact wf
+  | cons x m ih =>
+    obtain ⟨hx, hxm, wfm⟩ := (zoneWF_cons x m).mp wf
+    rw [List.map_cons, zoneWF_cons]
+    refine ⟨by rw [copy_len]; exact hx, ?_, ih wfm⟩
+    intro y hy
+    obtain ⟨o, ho, rfl⟩ := List.mem_map.mp hy
+    rw [copy_fin, copy_vaddr]; exact hxm o ho
+
+/-! ## checker -/
+
+theorem wfAdj_sound (m : List Mo) (h : wfAdj m = true) : ZoneWF m := by
+  induction m with
+  | nil => exact ZoneWF.nil
+  | cons x m ih =>
+    cases m with
+    | nil =>
+      simp only [wfAdj, decide_eq_true_eq] at h
+      rw [zoneWF_cons]; exact ⟨h, by simp, ZoneWF.nil⟩
+    | cons y rest =>
+      simp only [wfAdj, Bool.and_eq_true, decide_eq_true_eq] at h
+      obtain ⟨⟨h1, h2⟩, h3⟩ := h
+      have wfy := ih h3
+      obtain ⟨hy, hyr, _⟩ := (zoneWF_cons y rest).mp wfy
+      rw [zoneWF_cons]
+      refine ⟨h1, ?_, wfy⟩
+      intro w hw
+      rcases List.mem_cons.mp hw with hw | hw
+      · subst hw; exact h2
+      · have := hyr w hw; have := Mo.lt_fin y hy; omega
+
+theorem wfAdj_complete (m : List Mo) (wf : ZoneWF m) : wfAdj m = true := by
+  induction m with
+  | nil => rfl
+  | cons x m ih =>
+    obtain ⟨hx, hxm, wfm⟩ := (zoneWF_cons x m).mp wf
+    cases m with
+    | nil => simp [wfAdj, hx]
+    | cons y rest =>
+      simp only [wfAdj, Bool.and_eq_true, decide_eq_true_eq]
+      exact ⟨⟨hx, hxm y List.mem_cons_self⟩, ih wfm⟩
+
+
+
+/-! ## zones (map + cache) -/
+
+def Zone.WF (z : Zone) : Prop := ZoneWF z.map ∧ z.cache = starts z.map
+
+theorem Zone.empty_wf : Zone.empty.WF := ⟨ZoneWF.nil, rfl⟩
+
+theorem Zone.updateCache_wf (m : List Mo) (h : ZoneWF m) : (Zone.updateCache m).WF := ⟨h, rfl⟩
+
+theorem Zone.check_sound (z : Zone) (h : z.check = true) : z.WF := by
+  simp only [Zone.check, Bool.and_eq_true, beq_iff_eq] at h
+  exact ⟨wfAdj_sound z.map h.1, h.2⟩
+
+theorem Zone.check_complete (z : Zone) (h : z.WF) : z.check = true := by
+  simp only [Zone.check, Bool.and_eq_true, beq_iff_eq]
+  exact ⟨wfAdj_complete z.map h.1, h.2⟩
+
+theorem Zone.addtomap_spec (z : Zone) (o : Mo) (wf : z.WF) (ho : 0 < o.len) :
+    (z.addtomap o).WF ∧ (z.addtomap o).abs = override z.abs (absMo o) := by
+  obtain ⟨h1, h2⟩ := wf
+  unfold Zone.addtomap
+  rw [h2]
+  obtain ⟨w, a⟩ := addtomapL_spec z.map o h1 ho
+  refine ⟨Zone.updateCache_wf _ w, ?_⟩
+  funext q
+  exact a q
+
+theorem Zone.restruct_spec (z : Zone) (wf : z.WF) : z.restruct.WF ∧ z.restruct.abs = z.abs := by
+  unfold Zone.restruct
+  cases h : z.map with
+  | nil => exact ⟨wf, rfl⟩
+  | cons x rest =>
+    simp only
+    rw [← h]
+    refine ⟨Zone.updateCache_wf _ (restructL_wf _ wf.1), ?_⟩
+    funext q; exact restructL_abs z.map q
+
+theorem Zone.shift_spec (z : Zone) (off : Int) (wf : z.WF) :
+    (z.shift off).WF ∧ (z.shift off).abs = fun q => z.abs (q - off) := by
+  refine ⟨Zone.updateCache_wf _ (shiftL_wf _ off wf.1), ?_⟩
+  funext q; exact shiftL_abs z.map off q
+
+theorem Zone.copy_spec (z : Zone) (wf : ZoneWF z.map) : z.copy.WF ∧ z.copy.abs = z.abs := by
+  unfold Zone.copy Zone.restruct
+  cases h : z.map.map Mo.copy with
+  | nil =>
+    simp only
+    have : z.map = [] := by simpa using h
+    refine ⟨⟨ZoneWF.nil, rfl⟩, ?_⟩
+    funext q; simp [Zone.abs, this]
+  | cons x rest =>
+    simp only
+    rw [← h]
+    refine ⟨Zone.updateCache_wf _ (restructL_wf _ (copyL_wf _ wf)), ?_⟩
+    funext q
+    simp only [Zone.abs, Zone.updateCache]
+    rw [restructL_abs, copyL_abs]
+
+theorem mergeL_spec (l : List Mo) (z : Zone) (wf : z.WF) (wfl : ZoneWF l) :
+    (l.foldl Zone.addtomap z).WF ∧ (l.foldl Zone.addtomap z).abs = override z.abs (absL l) := by
+  induction l generalizing z with
+  | nil =>
+    refine ⟨wf, ?_⟩
+    funext q; simp [override, absL_nil]
+  | cons o l ih =>
+    obtain ⟨ho, hol, wfl'⟩ := (zoneWF_cons o l).mp wfl
+    obtain ⟨w1, a1⟩ := Zone.addtomap_spec z o wf ho
+    obtain ⟨w2, a2⟩ := ih (z.addtomap o) w1 wfl'
+    rw [List.foldl_cons]
+    refine ⟨w2, ?_⟩
+    rw [a2, a1]
+    funext q
+    simp only [override, absL_cons]
+    cases h : absMo o q with
+    | none => simp
+    | some d =>
+      have hr := absMo_some_range o q d h
+      have : absL l q = none := absL_none_of l q (fun w hw => Or.inl (by have := hol w hw; omega))
+      rw [this]; simp
+
+theorem Zone.mergeWith_spec (z other : Zone) (wf : z.WF) (wfo : ZoneWF other.map) :
+    (z.mergeWith other).WF ∧ (z.mergeWith other).abs = override z.abs other.abs :=
+  mergeL_spec other.map z wf wfo
+
+theorem Zone.read_spec (z : Zone) (a : Int) (n : Nat) (wf : z.WF) :
+    flattenItems (z.read a n) = window z.abs a n := by
+  unfold Zone.read; rw [wf.2]; exact readL_spec z.map a n wf.1
+
+
+
+/-! ## histories -/
+
+/-- the bytes a write `(a, v, en)` puts into memory. -/
+def absWrite (a : Int) (v : Val) (en : Endian) : ByteMap := fun q =>
+  if a ≤ q then (v.memBytes en)[(q - a).toNat]? else none
+
+theorem absMo_new (a : Int) (v : Val) (en : Endian) : absMo (Mo.new a v en) = absWrite a v en := by
+  funext q
+  unfold absMo absWrite
+  rw [Mo.new_vaddr, Mo.new_memBytes]
+
+abbrev WriteOp := Int × Val × Endian
+
+/-- most recent write of `ws` (oldest first) covering `q`. -/
+def lastWrite (ws : List WriteOp) (q : Int) : Option ByteDesc :=
+  ws.reverse.findSome? (fun w => absWrite w.1 w.2.1 w.2.2 q)
+
+def specWrites (ws : List WriteOp) (f : ByteMap) : ByteMap :=
+  ws.foldl (fun f w => override f (absWrite w.1 w.2.1 w.2.2)) f
+
+theorem specWrites_eq (ws : List WriteOp) (f : ByteMap) (q : Int) :
+    specWrites ws f q = (lastWrite ws q).or (f q) := by
+  induction ws generalizing f with
+  | nil => simp [specWrites, lastWrite]
+  | cons w ws ih =>
+    have : specWrites (w :: ws) f = specWrites ws (override f (absWrite w.1 w.2.1 w.2.2)) := rfl
+    rw [this, ih]
+    simp only [lastWrite, List.reverse_cons, List.findSome?_append, List.findSome?_cons, List.findSome?_nil,
+      override]
+    cases h : absWrite w.1 w.2.1 w.2.2 q <;> simp
+
+/-- byte-store meaning of one zone operation. -/
+def ZOp.spec (f : ByteMap) : ZOp → ByteMap
+  | .write a v en => override f (absWrite a v en)
+  | .restruct => f
+  | .copy => f
+  | .shift off => fun q => f (q - off)
+  | .merge ws => override f (specWrites ws (fun _ => none))
+
+def specZone (ops : List ZOp) : ByteMap := ops.foldl ZOp.spec (fun _ => none)
+
+/-- writes are non-empty. -/
+def ZOp.ok : ZOp → Prop
+  | .write _ v _ => 0 < v.len
+  | .merge ws => ∀ w ∈ ws, 0 < w.2.1.len
+  | _ => True
+
+theorem Zone.write_spec (z : Zone) (a : Int) (v : Val) (en : Endian) (wf : z.WF) (hv : 0 < v.len) :
+    (z.write a v en).WF ∧ (z.write a v en).abs = override z.abs (absWrite a v en) := by
+  have := Zone.addtomap_spec z (Mo.new a v en) wf (by rw [Mo.new_len]; exact hv)
+  rw [absMo_new] at this
+  exact this
+
+theorem writesZone_spec (ws : List WriteOp) (z : Zone) (wf : z.WF) (h : ∀ w ∈ ws, 0 < w.2.1.len) :
+    (ws.foldl (fun z w => z.write w.1 w.2.1 w.2.2) z).WF ∧
+    (ws.foldl (fun z w => z.write w.1 w.2.1 w.2.2) z).abs = specWrites ws z.abs := by
+  induction ws generalizing z with
+  | nil => exact ⟨wf, rfl⟩
+  | cons w ws ih =>
+    obtain ⟨w1, a1⟩ := Zone.write_spec z w.1 w.2.1 w.2.2 wf (h w List.mem_cons_self)
+    obtain ⟨w2, a2⟩ := ih (z.write w.1 w.2.1 w.2.2) w1 (fun w' hw' => h w' (List.mem_cons_of_mem _ hw'))
+    rw [List.foldl_cons]
+    refine ⟨w2, ?_⟩
+    rw [a2, a1]; rfl
+
+theorem ZOp.apply_spec (z : Zone) (op : ZOp) (wf : z.WF) (h : op.ok) :
+    (op.apply z).WF ∧ (op.apply z).abs = op.spec z.abs := by
+  cases op with
+  | write a v en => exact Zone.write_spec z a v en wf h
+  | restruct => exact Zone.restruct_spec z wf
+  | copy => exact Zone.copy_spec z wf.1
+  | shift off => exact Zone.shift_spec z off wf
+  | merge ws =>
+    obtain ⟨w1, a1⟩ := writesZone_spec ws Zone.empty Zone.empty_wf h
+    have := Zone.mergeWith_spec z (writesZone ws) wf w1.1
+    refine ⟨this.1, ?_⟩
+    show (z.mergeWith (writesZone ws)).abs = override z.abs (specWrites ws (fun _ => none))
+    rw [this.2]
+    congr 1
+
+theorem runFrom_spec (ops : List ZOp) (z : Zone) (wf : z.WF) (h : ∀ op ∈ ops, op.ok) :
+    (ops.foldl ZOp.apply z).WF ∧ (ops.foldl ZOp.apply z).abs = ops.foldl ZOp.spec z.abs := by
+  induction ops generalizing z with
+  | nil => exact ⟨wf, rfl⟩
+  | cons op ops ih =>
+    obtain ⟨w1, a1⟩ := ZOp.apply_spec z op wf (h op List.mem_cons_self)
+    obtain ⟨w2, a2⟩ := ih (op.apply z) w1 (fun o ho => h o (List.mem_cons_of_mem _ ho))
+    rw [List.foldl_cons, List.foldl_cons]
+    exact ⟨w2, by rw [a2, a1]⟩
+
+
+
+/-! ## MemoryMap -/
+
+def MMap.WF (mm : MMap) : Prop := (∀ kz ∈ mm.zones, kz.2.WF) ∧ (mm.zones.map Prod.fst).Nodup
+
+/-- content of the zone with key `k` (nothing when the zone does not exist). -/
+def MMap.absK (mm : MMap) (k : ZKey) : ByteMap :=
+  match mm.getZone k with
+  | some z => z.abs
+  | none => fun _ => none
+
+theorem MMap.empty_wf : MMap.empty.WF := by
+  constructor
+  · intro kz h
+    simp only [MMap.empty, List.mem_singleton] at h
+    subst h; exact Zone.empty_wf
+  · simp [MMap.empty]
+
+theorem MMap.getZone_mem (mm : MMap) (k : ZKey) (z : Zone) (h : mm.getZone k = some z) : (k, z) ∈ mm.zones := by
+  unfold MMap.getZone at h
+  cases hf : mm.zones.find? (fun kz => kz.1 == k) with
+  | none => rw [hf] at h; cases h
+  | some kz =>
+    rw [hf] at h
+    simp only [Option.map_some, Option.some.injEq] at h
+    have h1 := List.find?_some hf
+    have h2 := List.mem_of_find?_eq_some hf
+    simp only [beq_iff_eq] at h1
+    rw [← h1, ← h]; exact h2
+
+theorem MMap.getZone_wf (mm : MMap) (k : ZKey) (z : Zone) (wf : mm.WF) (h : mm.getZone k = some z) : z.WF :=
+  wf.1 (k, z) (MMap.getZone_mem mm k z h)
+
+theorem MMap.getZone_none (mm : MMap) (k : ZKey) (h : mm.getZone k = none) : ∀ kz ∈ mm.zones, kz.1 ≠ k := by
+  unfold MMap.getZone at h
+  simp only [Option.map_eq_none_iff, List.find?_eq_none, beq_iff_eq] at h
+  exact h
+
+theorem MMap.getZone_setZone (mm : MMap) (k k' : ZKey) (z : Zone) :
+    (mm.setZone k z).getZone k' = if k' = k then some z else mm.getZone k' := by
+  unfold MMap.setZone
+  by_cases hany : mm.zones.any (fun kz => kz.1 == k) = true
+  · simp only [hany, if_true]
+    unfold MMap.getZone
+    simp only [List.find?_map]
+    have hcomp : ((fun kz : ZKey × Zone => kz.1 == k') ∘ fun kz : ZKey × Zone => if (kz.1 == k) = true then (k, z) else kz)
+        = fun kz => kz.1 == k' := by
+      funext kz
+      simp only [Function.comp]
+      by_cases h : (kz.1 == k) = true
+      · simp only [h, if_true]; simp only [beq_iff_eq] at h; rw [h]
+      · simp [h]
+    rw [hcomp]
+    by_cases hk : k' = k
+    · subst hk
+      simp only [if_true]
+      cases hf : mm.zones.find? (fun kz => kz.1 == k') with
+      | none =>
+        simp only [List.find?_eq_none] at hf
+        simp only [List.any_eq_true] at hany
+        obtain ⟨kz, hm, hb⟩ := hany
+        exact absurd hb (hf kz hm)
+      | some kz =>
+        have := List.find?_some hf
+        simp only [beq_iff_eq] at this
+        simp [this]
+    · simp only [hk, if_false]
+      cases hf : mm.zones.find? (fun kz => kz.1 == k') with
+      | none => rfl
+      | some kz =>
+        have h1 := List.find?_some hf
+        simp only [beq_iff_eq] at h1
+        have : ¬ kz.1 = k := by rw [h1]; exact hk
+        simp [this]
+  · simp only [hany]
+    unfold MMap.getZone
+    simp only [Bool.false_eq_true, if_false, List.find?_append]
+    have hnone : mm.zones.find? (fun kz => kz.1 == k) = none := by
+      simp only [List.find?_eq_none]
+      intro kz hm hb
+      apply hany
+      simp only [List.any_eq_true]
+      exact ⟨kz, hm, hb⟩
+    by_cases hk : k' = k
+    · subst hk
+      simp [hnone]
+    · have : ¬ (k == k') = true := by simp only [beq_iff_eq]; exact fun h => hk h.symm
+      simp [hk, this]
+
+theorem MMap.setZone_wf (mm : MMap) (k : ZKey) (z : Zone) (wf : mm.WF) (hz : z.WF) : (mm.setZone k z).WF := by
+  unfold MMap.setZone
+  by_cases hany : mm.zones.any (fun kz => kz.1 == k) = true
+  · simp only [hany, if_true]
+    constructor
+    · intro kz hkz
+      simp only [List.mem_map] at hkz
+      obtain ⟨kz0, hm, rfl⟩ := hkz
+      by_cases h : (kz0.1 == k) = true
+      · simp only [h, if_true]; exact hz
+      · simp only [h]; exact wf.1 kz0 hm
+    · have : (mm.zones.map (fun kz => if (kz.1 == k) = true then (k, z) else kz)).map Prod.fst = mm.zones.map Prod.fst := by
+        rw [List.map_map]
+        apply List.map_congr_left
+        intro kz _
+        simp only [Function.comp]
+        by_cases h : (kz.1 == k) = true
+        · simp only [h, if_true]; simp only [beq_iff_eq] at h; exact h.symm
+        · simp [h]
+      simp only
+      rw [this]; exact wf.2
+  · simp only [hany]
+    simp only [Bool.false_eq_true, if_false]
+    constructor
+    · intro kz hkz
+      rcases List.mem_append.mp hkz with h | h
+      · exact wf.1 kz h
+      · simp only [List.mem_singleton] at h; subst h; exact hz
+    · simp only [List.map_append, List.map_cons, List.map_nil]
+      rw [List.nodup_append]
+      refine ⟨wf.2, by simp, ?_⟩
+      intro a ha b hb
+      simp only [List.mem_singleton] at hb
+      subst hb
+      intro hab
+      subst hab
+      obtain ⟨kz, hm, hk⟩ := List.mem_map.mp ha
+      apply hany
+      simp only [List.any_eq_true, beq_iff_eq]
+      exact ⟨kz, hm, hk⟩
+
+theorem MMap.absK_setZone (mm : MMap) (k k' : ZKey) (z : Zone) :
+    (mm.setZone k z).absK k' = if k' = k then z.abs else mm.absK k' := by
+  unfold MMap.absK
+  rw [MMap.getZone_setZone]
+  by_cases h : k' = k <;> simp [h]
+
+
+
+theorem override_none_left (g : ByteMap) : override (fun _ => none) g = g := by
+  funext q; simp [override]
+
+theorem override_none_right (f : ByteMap) : override f (fun _ => none) = f := by
+  funext q; simp [override]
+
+theorem Zone.empty_abs : Zone.empty.abs = fun _ => none := rfl
+
+/-- the zone a write goes to. -/
+theorem MMap.getD_wf (mm : MMap) (r : ZKey) (wf : mm.WF) :
+    ((mm.getZone r).getD Zone.empty).WF ∧ ((mm.getZone r).getD Zone.empty).abs = mm.absK r := by
+  unfold MMap.absK
+  cases h : mm.getZone r with
+  | none => exact ⟨Zone.empty_wf, rfl⟩
+  | some z => exact ⟨MMap.getZone_wf mm r z wf h, rfl⟩
+
+theorem MMap.write_spec (mm : MMap) (addr : Addr) (v : Val) (en : Endian) (r : ZKey) (d : Bool) (o : Int)
+    (wf : mm.WF) (href : reference addr = .ok (r, d, o)) (hd : r.isSome = true → d = true) (hv : 0 < v.len) :
+    ∃ mm', mm.write addr v en = .ok mm' ∧ mm'.WF ∧
+      ∀ k, mm'.absK k = if k = r then override (mm.absK r) (absWrite o v en) else mm.absK k := by
+  obtain ⟨wz, az⟩ := MMap.getD_wf mm r wf
+  obtain ⟨w1, a1⟩ := Zone.write_spec _ o v en wz hv
+  have hcond : (r.isSome && !d) = false := by
+    cases hr : r.isSome with
+    | false => rfl
+    | true => simp [hd hr]
+  refine ⟨mm.setZone r (((mm.getZone r).getD Zone.empty).write o v en), ?_, MMap.setZone_wf _ _ _ wf w1, ?_⟩
+  · unfold MMap.write
+    simp only [href, hcond, Bool.false_eq_true, if_false]
+  · intro k
+    rw [MMap.absK_setZone, a1, az]
+
+theorem MMap.write_error (mm : MMap) (addr : Addr) (v : Val) (en : Endian)
+    (h : match reference addr with
+         | .error _ => True
+         | .ok (r, d, _) => r.isSome = true ∧ d = false) :
+    mm.write addr v en = .error .memoryError := by
+  unfold MMap.write
+  cases hr : reference addr with
+  | error e => cases e; rfl
+  | ok x =>
+    obtain ⟨r, d, o⟩ := x
+    rw [hr] at h
+    simp only at h ⊢
+    simp [h.1, h.2]
+
+theorem MMap.read_spec (mm : MMap) (addr : Addr) (n : Nat) (r : ZKey) (d : Bool) (o : Int)
+    (wf : mm.WF) (href : reference addr = .ok (r, d, o)) :
+    match mm.getZone r with
+    | some _ => ∃ items, mm.read addr n = .ok items ∧ flattenItems items = window (mm.absK r) o n
+    | none => mm.read addr n = .error .memoryError ∧ mm.absK r = fun _ => none := by
+  unfold MMap.read MMap.absK
+  simp only [href]
+  cases h : mm.getZone r with
+  | none => exact ⟨rfl, rfl⟩
+  | some z =>
+    simp only
+    exact ⟨_, rfl, Zone.read_spec z o n (MMap.getZone_wf mm r z wf h)⟩
+
+/-! ### whole-map operations -/
+
+/-- content of key `k` in an association list of zones. -/
+def absKL (l : List (ZKey × Zone)) (k : ZKey) : ByteMap :=
+  match l.find? (fun kz => kz.1 == k) with
+  | some kz => kz.2.abs
+  | none => fun _ => none
+
+theorem MMap.absK_eq (mm : MMap) (k : ZKey) : mm.absK k = absKL mm.zones k := by
+  unfold MMap.absK MMap.getZone absKL
+  cases mm.zones.find? (fun kz => kz.1 == k) <;> rfl
+
+theorem absKL_cons (kz : ZKey × Zone) (l : List (ZKey × Zone)) (k : ZKey) :
+    absKL (kz :: l) k = if kz.1 = k then kz.2.abs else absKL l k := by
+  unfold absKL
+  rw [List.find?_cons]
+  by_cases h : kz.1 = k
+  · simp [h]
+  · have : (kz.1 == k) = false := by simp [h]
+    simp [this, h]
+
+theorem absKL_not_mem (l : List (ZKey × Zone)) (k : ZKey) (h : k ∉ l.map Prod.fst) : absKL l k = fun _ => none := by
+  unfold absKL
+  have : l.find? (fun kz => kz.1 == k) = none := by
+    simp only [List.find?_eq_none, beq_iff_eq]
+    intro kz hm hk
+    exact h (List.mem_map.mpr ⟨kz, hm, hk⟩)
+  rw [this]
+
+theorem MMap.restruct_spec (mm : MMap) (wf : mm.WF) : mm.restruct.WF ∧ ∀ k, mm.restruct.absK k = mm.absK k := by
+  unfold MMap.restruct
+  constructor
+  · constructor
+    · intro kz hkz
+      simp only [List.mem_map] at hkz
+      obtain ⟨kz0, hm, rfl⟩ := hkz
+      exact (Zone.restruct_spec kz0.2 (wf.1 kz0 hm)).1
+    · simp only [List.map_map]
+      have : (Prod.fst ∘ fun kz : ZKey × Zone => (kz.1, kz.2.restruct)) = Prod.fst := by funext kz; rfl
+      rw [this]; exact wf.2
+  · intro k
+    rw [MMap.absK_eq, MMap.absK_eq]
+    simp only
+    have hz := wf.1
+    generalize mm.zones = l at hz
+    induction l with
+    | nil => rfl
+    | cons kz l ih =>
+      rw [List.map_cons, absKL_cons, absKL_cons, ih (fun kz' h => hz kz' (List.mem_cons_of_mem _ h))]
+      simp only
+      rw [(Zone.restruct_spec kz.2 (hz kz List.mem_cons_self)).2]
+
+theorem copyFold_spec (l : List (ZKey × Zone)) (acc : MMap) (wfa : acc.WF)
+    (hl : ∀ kz ∈ l, ZoneWF kz.2.map) (hn : (l.map Prod.fst).Nodup) :
+    (l.foldl (fun acc kz => acc.setZone kz.1 kz.2.copy) acc).WF ∧
+    ∀ k, (l.foldl (fun acc kz => acc.setZone kz.1 kz.2.copy) acc).absK k =
+      if k ∈ l.map Prod.fst then absKL l k else acc.absK k := by
+  induction l generalizing acc with
+  | nil => exact ⟨wfa, fun k => by simp⟩
+  | cons kz l ih =>
+    obtain ⟨wc, ac⟩ := Zone.copy_spec kz.2 (hl kz List.mem_cons_self)
+    have wfa' := MMap.setZone_wf acc kz.1 kz.2.copy wfa wc
+    simp only [List.map_cons, List.nodup_cons] at hn
+    obtain ⟨w2, a2⟩ := ih (acc.setZone kz.1 kz.2.copy) wfa' (fun kz' h => hl kz' (List.mem_cons_of_mem _ h)) hn.2
+    rw [List.foldl_cons]
+    refine ⟨w2, ?_⟩
+    intro k
+    rw [a2 k, absKL_cons, MMap.absK_setZone]
+    by_cases hk : k ∈ l.map Prod.fst
+    · have : ¬ kz.1 = k := fun e => hn.1 (e ▸ hk)
+      simp [hk, this]
+    · by_cases hk2 : k = kz.1
+      · subst hk2; simp [hk, ac]
+      · have : ¬ kz.1 = k := fun e => hk2 e.symm
+        simp [hk, hk2]
+
+theorem MMap.empty_absK (k : ZKey) : MMap.empty.absK k = fun _ => none := by
+  unfold MMap.absK MMap.getZone MMap.empty
+  simp only [List.find?_cons, List.find?_nil]
+  cases k <;> rfl
+
+theorem MMap.copy_spec (mm : MMap) (wf : mm.WF) : mm.copy.WF ∧ ∀ k, mm.copy.absK k = mm.absK k := by
+  obtain ⟨w, a⟩ := copyFold_spec mm.zones MMap.empty MMap.empty_wf (fun kz h => (wf.1 kz h).1) wf.2
+  refine ⟨w, ?_⟩
+  intro k
+  have := a k
+  unfold MMap.copy
+  rw [this, MMap.absK_eq mm k]
+  by_cases hk : k ∈ mm.zones.map Prod.fst
+  · simp [hk]
+  · simp only [hk, if_false]; rw [MMap.empty_absK, absKL_not_mem _ _ hk]
+
+def mergeStep (acc : MMap) (kz : ZKey × Zone) : MMap :=
+  match acc.getZone kz.1 with
+  | some z => acc.setZone kz.1 (z.mergeWith kz.2)
+  | none => acc.setZone kz.1 kz.2
+
+theorem mergeStep_spec (acc : MMap) (kz : ZKey × Zone) (wfa : acc.WF) (hz : kz.2.WF) :
+    (mergeStep acc kz).WF ∧
+    ∀ k, (mergeStep acc kz).absK k = if k = kz.1 then override (acc.absK k) kz.2.abs else acc.absK k := by
+  unfold mergeStep
+  cases h : acc.getZone kz.1 with
+  | none =>
+    simp only
+    refine ⟨MMap.setZone_wf _ _ _ wfa hz, ?_⟩
+    intro k
+    rw [MMap.absK_setZone]
+    by_cases hk : k = kz.1
+    · subst hk
+      have : acc.absK kz.1 = fun _ => none := by unfold MMap.absK; rw [h]
+      simp [this, override_none_left]
+    · simp [hk]
+  | some z =>
+    simp only
+    obtain ⟨w1, a1⟩ := Zone.mergeWith_spec z kz.2 (MMap.getZone_wf acc kz.1 z wfa h) hz.1
+    refine ⟨MMap.setZone_wf _ _ _ wfa w1, ?_⟩
+    intro k
+    rw [MMap.absK_setZone]
+    by_cases hk : k = kz.1
+    · subst hk
+      have : acc.absK kz.1 = z.abs := by unfold MMap.absK; rw [h]
+      simp [this, a1]
+    · simp [hk]
+
+theorem mergeFold_spec (l : List (ZKey × Zone)) (acc : MMap) (wfa : acc.WF)
+    (hl : ∀ kz ∈ l, kz.2.WF) (hn : (l.map Prod.fst).Nodup) :
+    (l.foldl mergeStep acc).WF ∧ ∀ k, (l.foldl mergeStep acc).absK k = override (acc.absK k) (absKL l k) := by
+  induction l generalizing acc with
+  | nil =>
+    refine ⟨wfa, fun k => ?_⟩
+    simp only [List.foldl_nil]
+    have : absKL [] k = fun _ => none := rfl
+    rw [this, override_none_right]
+  | cons kz l ih =>
+    obtain ⟨w1, a1⟩ := mergeStep_spec acc kz wfa (hl kz List.mem_cons_self)
+    simp only [List.map_cons, List.nodup_cons] at hn
+    obtain ⟨w2, a2⟩ := ih (mergeStep acc kz) w1 (fun kz' h => hl kz' (List.mem_cons_of_mem _ h)) hn.2
+    rw [List.foldl_cons]
+    refine ⟨w2, ?_⟩
+    intro k
+    rw [a2 k, a1 k, absKL_cons]
+    by_cases hk : k = kz.1
+    · subst hk
+      simp only [if_true]
+      rw [absKL_not_mem l _ hn.1, override_none_right]
+    · have : ¬ kz.1 = k := fun e => hk e.symm
+      simp [hk, this]
+
+theorem MMap.merge_spec (mm other : MMap) (wf : mm.WF) (wfo : other.WF) :
+    (mm.merge other).WF ∧ ∀ k, (mm.merge other).absK k = override (mm.absK k) (other.absK k) := by
+  have := mergeFold_spec other.zones mm wf wfo.1 wfo.2
+  refine ⟨this.1, fun k => ?_⟩
+  rw [MMap.absK_eq other k]
+  exact this.2 k
+
+
+
+/-! ### MemoryMap histories -/
+
+abbrev Store := ZKey → ByteMap
+
+/-- byte-store meaning of a `MemoryMap.write`: nothing happens when the address denotes no location. -/
+def specWrite (s : Store) (a : Addr) (v : Val) (en : Endian) : Store :=
+  match reference a with
+  | .error _ => s
+  | .ok (r, d, o) =>
+    if r.isSome && !d then s
+    else fun k => if k = r then override (s r) (absWrite o v en) else s k
+
+def specMWrites (ws : List (Addr × Val × Endian)) (s : Store) : Store :=
+  ws.foldl (fun s w => specWrite s w.1 w.2.1 w.2.2) s
+
+def MOp.spec (s : Store) : MOp → Store
+  | .write a v en => specWrite s a v en
+  | .restruct => s
+  | .copy => s
+  | .shift k off => fun k' => if k' = k then fun q => s k (q - off) else s k'
+  | .merge ws => fun k => override (s k) (specMWrites ws (fun _ _ => none) k)
+
+def specMMap (ops : List MOp) : Store := ops.foldl MOp.spec (fun _ _ => none)
+
+def MOp.ok : MOp → Prop
+  | .write _ v _ => 0 < v.len
+  | .merge ws => ∀ w ∈ ws, 0 < w.2.1.len
+  | _ => True
+
+theorem MMap.writeD_spec (mm : MMap) (a : Addr) (v : Val) (en : Endian) (wf : mm.WF) (hv : 0 < v.len) :
+    (mm.writeD a v en).WF ∧ ∀ k, (mm.writeD a v en).absK k = specWrite mm.absK a v en k := by
+  unfold MMap.writeD specWrite
+  cases href : reference a with
+  | error e =>
+    have : mm.write a v en = .error .memoryError := MMap.write_error mm a v en (by rw [href]; trivial)
+    rw [this]; exact ⟨wf, fun k => by trivial⟩
+  | ok x =>
+    obtain ⟨r, d, o⟩ := x
+    by_cases hc : (r.isSome && !d) = true
+    · have : mm.write a v en = .error .memoryError := by
+        apply MMap.write_error
+        rw [href]
+        simp only [Bool.and_eq_true, Bool.not_eq_true'] at hc
+        exact hc
+      rw [this]
+      simp only [hc, if_true]
+      exact ⟨wf, fun k => by trivial⟩
+    · have hd : r.isSome = true → d = true := by
+        intro h; simp [h] at hc; exact hc
+      obtain ⟨mm', e, w, ab⟩ := MMap.write_spec mm a v en r d o wf href hd hv
+      rw [e]
+      simp only [hc]
+      exact ⟨w, ab⟩
+
+theorem writesMMap_spec (ws : List (Addr × Val × Endian)) (mm : MMap) (wf : mm.WF) (h : ∀ w ∈ ws, 0 < w.2.1.len) :
+    (ws.foldl (fun mm w => mm.writeD w.1 w.2.1 w.2.2) mm).WF ∧
+    ∀ k, (ws.foldl (fun mm w => mm.writeD w.1 w.2.1 w.2.2) mm).absK k = specMWrites ws mm.absK k := by
+  induction ws generalizing mm with
+  | nil => exact ⟨wf, fun k => rfl⟩
+  | cons w ws ih =>
+    obtain ⟨w1, a1⟩ := MMap.writeD_spec mm w.1 w.2.1 w.2.2 wf (h w List.mem_cons_self)
+    obtain ⟨w2, a2⟩ := ih (mm.writeD w.1 w.2.1 w.2.2) w1 (fun w' hw' => h w' (List.mem_cons_of_mem _ hw'))
+    rw [List.foldl_cons]
+    refine ⟨w2, fun k => ?_⟩
+    rw [a2 k]
+    have : (mm.writeD w.1 w.2.1 w.2.2).absK = specWrite mm.absK w.1 w.2.1 w.2.2 := funext a1
+    rw [this]; rfl
+
+theorem MOp.apply_spec (mm : MMap) (op : MOp) (wf : mm.WF) (h : op.ok) :
+    (op.apply mm).WF ∧ ∀ k, (op.apply mm).absK k = op.spec mm.absK k := by
+  cases op with
+  | write a v en => exact MMap.writeD_spec mm a v en wf h
+  | restruct => exact MMap.restruct_spec mm wf
+  | copy => exact MMap.copy_spec mm wf
+  | shift k off =>
+    simp only [MOp.apply, MOp.spec]
+    cases hz : mm.getZone k with
+    | none =>
+      refine ⟨wf, fun k' => ?_⟩
+      by_cases hk : k' = k
+      · subst hk
+        have : mm.absK k' = fun _ => none := by unfold MMap.absK; rw [hz]
+        simp [this]
+      · simp [hk]
+    | some z =>
+      simp only
+      obtain ⟨w1, a1⟩ := Zone.shift_spec z off (MMap.getZone_wf mm k z wf hz)
+      refine ⟨MMap.setZone_wf _ _ _ wf w1, fun k' => ?_⟩
+      rw [MMap.absK_setZone]
+      by_cases hk : k' = k
+      · subst hk
+        have : mm.absK k' = z.abs := by unfold MMap.absK; rw [hz]
+        simp [this, a1]
+      · simp [hk]
+  | merge ws =>
+    obtain ⟨w1, a1⟩ := writesMMap_spec ws MMap.empty MMap.empty_wf h
+    obtain ⟨w2, a2⟩ := MMap.merge_spec mm (writesMMap ws) wf w1
+    refine ⟨w2, fun k => ?_⟩
+    show (mm.merge (writesMMap ws)).absK k = override (mm.absK k) (specMWrites ws (fun _ _ => none) k)
+    rw [a2 k]
+    congr 1
+    have := a1 k
+    have he : MMap.empty.absK = fun _ _ => none := funext MMap.empty_absK
+    rw [he] at this
+    exact this
+
+theorem runMMapFrom_spec (ops : List MOp) (mm : MMap) (wf : mm.WF) (h : ∀ op ∈ ops, op.ok) :
+    (ops.foldl MOp.apply mm).WF ∧ ∀ k, (ops.foldl MOp.apply mm).absK k = ops.foldl MOp.spec mm.absK k := by
+  induction ops generalizing mm with
+  | nil => exact ⟨wf, fun k => rfl⟩
+  | cons op ops ih =>
+    obtain ⟨w1, a1⟩ := MOp.apply_spec mm op wf (h op List.mem_cons_self)
+    obtain ⟨w2, a2⟩ := ih (op.apply mm) w1 (fun o ho => h o (List.mem_cons_of_mem _ ho))
+    rw [List.foldl_cons, List.foldl_cons]
+    refine ⟨w2, fun k => ?_⟩
+    rw [a2 k]
+    have : (op.apply mm).absK = op.spec mm.absK := funext a1
+    rw [this]
 
 
 end Amoco.Memory
